@@ -48,7 +48,7 @@ def parse_position_marker_arg(
         else:
             raise SsbCompilerError("Logic error in decimal code for 'position marker arg'.")
 
-        if dec_part == 5:
+        if dec_part_raw_stripped == "5":
             offset = 2
         elif dec_part == 0:
             offset = 0
